@@ -339,6 +339,13 @@ func (c *client) isAuthExpired() bool {
 func (c *client) Do(ctx context.Context, req *Request, opts ...RequestOption) (res *protocol.Packet, err error) {
 	c.RLock()
 	defer c.RUnlock()
+
+	// no conn when the last dial failed
+	if c.conn == nil {
+		err = errConnClosed
+		return
+	}
+
 	rp, e := protocol.NewRequest(c.conn.Context(), req.Cmd, req.Body)
 
 	if e != nil {
